@@ -8,7 +8,7 @@
 // @opts max_steps=20000000
 // @reach reinit.compared
 // @funcs Phreeqc::Phreeqc; Phreeqc::init
-// @bounds the real engine object: one instance freshly constructed; a second one constructed and then every int / double / bool member of class Phreeqc (all scalar leaves of the IR struct layout outside standard-library containers, ~2000) overwritten with a junk pattern - an arbitrary "used or half-failed" state of those members - followed by init(), the member-reset step of a database load (UnLoadDatabase = clean_up; init; do_initialize) and of construction
+// @bounds the real engine object: one instance freshly constructed; a second one constructed and then every int / double / bool member and every callback (function-pointer) member of class Phreeqc (all scalar leaves of the IR struct layout outside standard-library containers, ~2000) overwritten with a junk pattern - an arbitrary "used or half-failed" state of those members - followed by init(), the member-reset step of a database load (UnLoadDatabase = clean_up; init; do_initialize) and of construction
 // @oracle after the load sequence every scalar member equals its value in a freshly constructed engine and every pointer member is null / non-null as in the fresh one: no scalar survives a load (LoadDatabase returns the instance to the fresh state; results never depend on what an earlier instance left in memory)
 // @stubs PHRQ_io::error_msg / warning_msg / output_msg (events)
 // @outside clean_up / do_initialize (they walk containers whose sizes must agree with the scalar counts: arbitrary scalars are not a reachable state for them); contents of containers (see C07.containers_cleared) and of heap blocks behind pointers; scalars that live inside standard-library members
@@ -33,10 +33,12 @@ extern "C" void vfh_C07_reinit(void)
 	used->phrq_io = &io_used;
 	/* the stream switches of the io object that input options flip (KNOBS -logfile, PRINT -selected_output / -dump / -echo_input) */
 	io_used.Set_log_on(true); io_used.Set_punch_on(false); io_used.Set_dump_on(false); io_used.Set_echo_on(false);
+	used->basic_callback_cookie = (void *) &io_used;            /* the cookie registered with a BASIC callback by the host */
 	used->clean_up();
 	used->init();
 	used->do_initialize();
 	vf_reach("reinit.compared");
+	vf_check("reinit.callback_cookie_dropped", used->basic_callback_cookie == NULL && fresh->basic_callback_cookie == NULL);
 	/* log_on has no other place that re-establishes it; punch_on is set from pr.punch by tidy_punch whenever a SELECTED_OUTPUT
 	   exists (a load removes them all), echo_on at the start of every read_input, and IPhreeqc routes dumps itself (reviewed) */
 	vf_check("reinit.log_stream_switch_as_fresh", io_used.Get_log_on() == io.Get_log_on());
